@@ -37,8 +37,29 @@ displayed, never what is summarised):
 * nested loops — an outer loop over one sequence and, on its last element, an inner loop over another one
   with the same variable names (own options, own mapping flag): the statistics asked before, inside and after
   the inner loop are those of the loop they are asked in.
+
+Later parts generalise *what an element is* and *what stands around the statistics*:
+
+* element kinds - "the elements may be either instance or mapping objects": the same loops over mapping objects
+  that are no plain dict (a class with nothing but ``__getitem__``, a ``collections.abc.Mapping``, dict
+  subclasses that compute the key in ``__missing__``, UserDict, ChainMap, OrderedDict, mappingproxy) and over
+  instances that keep their attributes elsewhere than in a plain ``__dict__`` (``__slots__``, properties,
+  ``__getattr__``, named tuples, SimpleNamespace, instances that are false in a boolean context), in single
+  loops (every small list over every kind), nested loops and in-place histories; now and then the data
+  variable is itself called ``item``.
+* plain values - the sequence holds the ints / floats / strings / None themselves and the statistics are asked
+  as ``statistic-item`` (the documented name of the element is ``sequence-item``): every small list, in every
+  container (also UserList, array, the keys of a dict, a dict itself), with missing values at every position,
+  with 0 / 0.0 / '' among the values, whole numbers beyond 2**53, batch / reversal / naming options.
+* furnished nested loops - the inner loop (and now and then the outer one) renders other tags for every
+  element: dtml-if with name and expression conditions, elif chains, else, dtml-unless, dtml-let, dtml-with,
+  dtml-try, small loops; the inner loop runs for every outer element or only for the last one; the emissions
+  may sit inside another tag.  Whatever those tags push and pop, the statistics read afterwards are those of
+  the loop they are asked in.
 """
+import array
 import collections
+import collections.abc
 import hashlib
 import itertools
 import math
@@ -46,6 +67,7 @@ import numbers
 import os
 import random
 import re
+import types
 from fractions import Fraction
 
 ID = 'C16'
@@ -85,6 +107,28 @@ RULE = ('exhaustive lists of length 1..4 (thorough 1..5) over {-2,0,1,3,0.5,2.5,
         'NESTED: 1600 (thorough 48000) pairs of an outer and an inner loop over two sequences with the same '
         'variable names, each with its own drawn options, emitting outer / inner / outer or (half of them) inner / '
         'outer, so that the outer statistics are first asked after the inner loop has run. '
+        'ELEMENT KINDS: every list of length 1..3 over the three small domains is rendered over each of 14 further '
+        'kinds of element - mapping objects (getitem-only class, abc.Mapping, two dict subclasses computing the key in '
+        '__missing__, UserDict, ChainMap, OrderedDict, mappingproxy; tag with mapping) and instances (__slots__, '
+        'properties, __getattr__, namedtuple, SimpleNamespace, false-in-boolean-context instance; tag without '
+        'mapping) - with one drawn shape per mapping flag (container incl. UserList, batch, order, form, layout, '
+        'emission point, option subset; sort options not combined with the getitem-only class, which has no get()); '
+        '2400 (thorough 60000) seeded lists with 1..3 variables over a drawn kind, 10% of them with the first variable '
+        'called item; 400 (thorough 12000) seeded histories over the changeable kinds; 35% of the loops of the '
+        'furnished pairs. PLAIN VALUES: all lists of length 1..4 over the numeric and the text domain, 1..3 over the '
+        "distinctive spelling, over {0,0.0,2,None} and over {'','a','b',None} (3392 lists) and 2400 (thorough 60000) "
+        'seeded lists (the seeded kinds plus whole numbers up to 10^18) are handed over as the elements themselves and '
+        'summarised as statistic-item without mapping, in a drawn container (list, tuple, deque, sequence class, '
+        'UserList, array; generator, iterator, map, dict values / keys view, dict, set, frozenset, __iter__-only class; '
+        'for sets and dict keys the expected values are those the container holds), with drawn batch options (50%), '
+        'reversal, no_push_item, prefix=, skip_unauthorized, else, tag form, attribute order, channel, emission point '
+        'and first statistic. FURNISHED: 1600 (thorough 40000) nested pairs drawn like NESTED whose inner loop renders '
+        '1..3 further tags for every element (dtml-if with 1..3 name / expression conditions over the data variables, '
+        'other keys, sequence-even/odd/start/end and an unknown name, with or without else, 25% with a tag nested in '
+        'every branch; dtml-unless; dtml-let; dtml-with [only]; dtml-try/except; dtml-try/finally; a small dtml-in), '
+        '40% also the outer loop, 30% between the inner loop and the last outer emission; the inner loop runs for every '
+        'outer element in half of them (every inner emission is judged); in a third the emissions sit inside a '
+        'dtml-if (name / expression / else branch), dtml-let, dtml-with or dtml-try. '
         'A case is non-trivial when at least two values '
         'of a variable are non-missing; distinct = distinct (variable names with their typed value lists, '
         'mapping, channel, rotation[, container and options | history prefix])')
@@ -115,6 +159,17 @@ ASSUMPTIONS = [
     'attribute), the others order, select for display or name things; sort specifications follow the "sort" '
     'paragraph of the DT_In docstring (nocase only on text keys; a caller supplied three-way comparison is looked '
     'up by name); inside nested loops a statistic belongs to the innermost loop running when it is asked',
+    'element kinds: with mapping an element is read by subscription (element[name], whatever else the mapping '
+    'object offers), without mapping by attribute access (however the instance provides the attribute); the kind '
+    'of element never changes the expected statistics. Not generated: sort options over mapping objects without '
+    'get(), elements that answer every key (a pushed element must raise KeyError for names it does not have)',
+    'plain values: when the elements are the values themselves they are summarised under the name item '
+    '(statistic-item, as the element is sequence-item), without mapping; expected values are those of the '
+    'elements the container holds (a set / the keys of a dict hold one of several equal values); no sort option '
+    'is generated for them (there is no key to name) and two-element tuples (key/value pairs) are not generated',
+    'tags that stand around the statistics (dtml-if / elif / else, unless, let, with, try, another small dtml-in '
+    'that has ended) do not change which loop a statistic belongs to; which branch of a conditional is taken is '
+    'not judged here (it is counted)',
     'the wrappers on sequence_variables.statistics / the dispatch table and the reach anchors are diagnosis '
     '(coverage.internals_diagnosis); the verdict and inconclusive rest on the compared outputs only',
 ]
@@ -126,6 +181,10 @@ SHAPES = {'quick': 4000, 'thorough': 120000}
 HISTORIES = {'quick': 800, 'thorough': 30000}
 NESTED = {'quick': 1600, 'thorough': 48000}
 EXH_HIST_LEN = {'quick': 2, 'thorough': 3}
+ELEMENTS = {'quick': 2400, 'thorough': 60000}
+PLAIN = {'quick': 2400, 'thorough': 60000}
+FURNISHED = {'quick': 1600, 'thorough': 40000}
+HISTORIES2 = {'quick': 400, 'thorough': 12000}
 
 STATS = ('total', 'count', 'min', 'max', 'median', 'mean', 'variance', 'variance-n',
          'standard-deviation', 'standard-deviation-n')
@@ -448,6 +507,11 @@ FORMS = ('name', 'expr', 'expr=')
 # containers the tag subscripts directly / containers it has to wrap (no __getitem__)
 DIRECT = ('list', 'tuple', 'deque', 'seqclass')
 LAZY = ('generator', 'iterator', 'map', 'dictvalues', 'set', 'frozenset', 'iterclass')
+# further containers of the later parts; the last three hold plain values only, the last two (like the sets)
+# keep one of several equal values
+MORE_DIRECT = ('userlist', 'array')
+MORE_LAZY = ('dictkeys', 'dictobj')
+MERGING = ('set', 'frozenset', 'dictkeys', 'dictobj')
 HIST_CONTAINERS = ('list', 'list', 'list', 'tuple', 'deque', 'seqclass', 'dictvalues')
 HIST_OPS = ('none', 'set', 'replace', 'append', 'pop', 'swap', 'rebuild', 'other')
 STRUCTURAL = ('replace', 'append', 'pop', 'swap')
@@ -615,18 +679,94 @@ def stat_body(channel, slots):
     return ''.join('<dtml-call "rec((\'%s\', \'%s\'), _[\'%s-%s\'])">' % (s, nm, s, nm) for s, nm in slots)
 
 
-def nested_source(channel, rot, names, map_a, o_a, map_b, o_b, pre=True):
+# ---- furniture: tags around the statistics that push and pop namespaces of their own (and emit nothing)
+COND_NAMES = ('rank', 'tag', 'sequence-even', 'sequence-odd', 'sequence-start', 'sequence-end', 'no_such_name')
+COND_EXPRS = ("_['sequence-index'] % 2", "_['sequence-index'] == 0", '0', '1')
+SNIPPETS = ('if', 'if', 'if', 'if', 'unless', 'let', 'with', 'with-only', 'try-except', 'try-finally', 'in')
+WRAPS = ('if-name', 'if-expr', 'let', 'with', 'try', 'else-branch')
+
+
+def tick(label):
+    return '<dtml-call "tick(\'%s\')">' % label
+
+
+def spell_cond(c):
+    return c[1] if c[0] == 'name' else '"%s"' % c[1]
+
+
+def spell_snippet(sn):
+    what = sn[0]
+    if what == 'if':                    # ['if', [conditions], has_else, [snippets inside every branch]]
+        sub = spell_furniture(sn[3])
+        out = ''
+        for i, c in enumerate(sn[1]):
+            out += '<dtml-%s %s>' % ('elif' if i else 'if', spell_cond(c)) + tick('branch %d' % (i + 1)) + sub
+        if sn[2]:
+            out += '<dtml-else>' + tick('else branch') + sub
+        return out + '</dtml-if>'
+    if what == 'unless':
+        return '<dtml-unless %s>%s</dtml-unless>' % (spell_cond(sn[1]), tick('unless'))
+    if what == 'let':
+        return '<dtml-let q="_[\'sequence-index\']" r="q + 1">%s</dtml-let>' % tick('let')
+    if what == 'with':
+        return '<dtml-with "_.namespace(q=1)">%s</dtml-with>' % tick('with')
+    if what == 'with-only':
+        return '<dtml-with "_.namespace(q=1)" only></dtml-with>'
+    if what == 'try-except':
+        return '<dtml-try><dtml-call "no_such_name()"><dtml-except>%s</dtml-try>' % tick('except')
+    if what == 'try-finally':
+        return '<dtml-try>%s<dtml-finally>%s</dtml-try>' % (tick('try'), tick('finally'))
+    if what == 'in':
+        return '<dtml-in "(1, 2)">%s</dtml-in>' % tick('small loop')
+    raise ValueError(sn)
+
+
+def spell_furniture(snips):
+    return ''.join(spell_snippet(sn) for sn in snips or ())
+
+
+def wrap_body(wrap, body):
+    """The statistics asked from inside another tag's namespace: still those of the enclosing loop."""
+    if not wrap:
+        return body
+    if wrap == 'if-name':
+        return '<dtml-if sequence-number>%s</dtml-if>' % body
+    if wrap == 'if-expr':
+        return '<dtml-if "1">%s</dtml-if>' % body
+    if wrap == 'else-branch':
+        return '<dtml-if no_such_name><dtml-elif no_such_name_2><dtml-else>%s</dtml-if>' % body
+    if wrap == 'let':
+        return '<dtml-let q="1">%s</dtml-let>' % body
+    if wrap == 'with':
+        return '<dtml-with "_.namespace(q=1)">%s</dtml-with>' % body
+    if wrap == 'try':
+        return '<dtml-try>%s<dtml-except>failed</dtml-try>' % body
+    raise ValueError(wrap)
+
+
+def nested_source(channel, rot, names, map_a, o_a, map_b, o_b, pre=True, furniture=None, inner_every=False,
+                  wrap=None):
     """An outer loop over seq whose last element emits the statistics (pre), then runs an inner loop over
     seq2 (same variable names, its own options) that emits them on its last element, then emits them
     once more: [outer,] inner, outer.  Without pre the outer loop asks for its statistics for the first
-    time after the inner loop has come and gone."""
+    time after the inner loop has come and gone.
+
+    furniture: {'inner' | 'outer' | 'mid': [snippets]} - tags rendered for every element of the inner / the
+    outer loop, and between the end of the inner loop and the last outer emission.  inner_every: the inner
+    loop runs for every element of the outer one ((inner)* [outer,] inner, outer).  wrap: the emissions sit
+    inside another tag."""
+    f = furniture or {}
     order = STATS[rot:] + STATS[:rot]
     slots = [(s, nm) for s in order for nm in names]
-    body = stat_body(channel, slots)
-    inner = (tag_head(map_b, names, o_b, 'seq2') + '<dtml-if sequence-end>' + body + '</dtml-if>'
-             + loop_end(o_b))
-    return (tag_head(map_a, names, o_a) + '<dtml-if sequence-end>' + (body if pre else '') + inner + body
-            + '</dtml-if>' + loop_end(o_a)), slots
+    body = wrap_body(wrap, stat_body(channel, slots))
+    inner = (tag_head(map_b, names, o_b, 'seq2') + spell_furniture(f.get('inner')) + '<dtml-if sequence-end>'
+             + body + '</dtml-if>' + loop_end(o_b))
+    head = tag_head(map_a, names, o_a) + spell_furniture(f.get('outer'))
+    tail = spell_furniture(f.get('mid')) + body + '</dtml-if>' + loop_end(o_a)
+    if inner_every:
+        return (head + ('<dtml-if sequence-end>' + body + '</dtml-if>' if pre else '') + inner
+                + '<dtml-if sequence-end>' + tail), slots
+    return head + '<dtml-if sequence-end>' + (body if pre else '') + inner + tail, slots
 
 
 def source(channel, mapping, rot, names, opts=None, loops=1):
@@ -683,26 +823,207 @@ class Iterable:
         return iter(list(self._items))
 
 
-def new_item(kind, values):
-    if kind == 'dict':
-        return dict(values)
-    if kind == 'both':
-        return Both(values)
-    it = Item()
+# ---- element kinds: the ways an element can offer its variables ("The elements may be either instance or
+# mapping objects"): with mapping the value is element[name], otherwise the attribute element.name
+class Row:
+    """A mapping object in the narrow sense: row['column'] (KeyError for anything else) and nothing more."""
+
+    def __init__(self, values):
+        self._cols = dict(values)
+
+    def __getitem__(self, key):
+        return self._cols[key]
+
+
+class Record(collections.abc.Mapping):
+    """A read-only mapping with the whole protocol derived from __getitem__ / __iter__ / __len__."""
+    __hash__ = object.__hash__
+
+    def __init__(self, values):
+        self._cols = dict(values)
+
+    def __getitem__(self, key):
+        return self._cols[key]
+
+    def __iter__(self):
+        return iter(self._cols)
+
+    def __len__(self):
+        return len(self._cols)
+
+
+_ABSENT = object()
+
+
+class Derived(dict):
+    """A dict whose columns are computed on access: row['x'] is made from what is stored under '=x'."""
+    __hash__ = object.__hash__
+
+    def __init__(self, values):
+        dict.__init__(self, (('=' + k, v) for k, v in values.items()))
+
+    def __missing__(self, key):
+        v = dict.get(self, '=' + key, _ABSENT)
+        if v is _ABSENT:
+            raise KeyError(key)
+        return v
+
+
+class SumOfParts(dict):
+    """A dict with derived columns: row['x'] is row['x.a'] + row['x.b'] (None when a part is None)."""
+    __hash__ = object.__hash__
+
+    def __init__(self, values):
+        dict.__init__(self)
+        for k, v in values.items():
+            if type(v) is str:
+                a, b = v[:len(v) // 2], v[len(v) // 2:]
+            elif type(v) is int:
+                a, b = v - 7, 7
+            else:
+                a, b = v, None          # floats, None, Missing.Value: handed through unchanged
+            dict.__setitem__(self, k + '.a', a)
+            dict.__setitem__(self, k + '.b', b)
+
+    def __missing__(self, key):
+        a = dict.get(self, key + '.a', _ABSENT)
+        if a is _ABSENT:
+            raise KeyError(key)
+        b = dict.get(self, key + '.b')
+        return a if b is None else a + b
+
+
+class Hidden:
+    """Attributes computed by __getattr__ from a private table."""
+
+    def __init__(self, values):
+        self.__dict__['_v'] = dict(values)
+
+    def __getattr__(self, name):
+        try:
+            return self.__dict__['_v'][name]
+        except KeyError:
+            raise AttributeError(name)
+
+
+class Props:
+    """Attributes that are properties of the class (computed from a private table)."""
+
+    def __init__(self, values):
+        self._v = dict(values)
+
+
+def _prop(name):
+    def get(self):
+        try:
+            return self._v[name]
+        except KeyError:
+            raise AttributeError(name)
+    return property(get)
+
+
+for _n in NAMES + ('item', 'rank', 'tag'):
+    setattr(Props, _n, _prop(_n))
+
+
+class EmptyFolder(Item):
+    """An attribute object that is false in a boolean context (a container without children)."""
+
+    def __len__(self):
+        return 0
+
+
+_CLASSES = {}
+
+
+def _slotted(fields):
+    c = _CLASSES.get(('slots', fields))
+    if c is None:
+        c = _CLASSES[('slots', fields)] = type('Slotted', (), {'__slots__': fields})
+    return c
+
+
+def _tuple_class(fields):
+    c = _CLASSES.get(('nt', fields))
+    if c is None:
+        c = _CLASSES[('nt', fields)] = collections.namedtuple('RowTuple', fields)
+    return c
+
+
+def _attrs(obj, values):
     for k, v in values.items():
-        setattr(it, k, v)
-    return it
+        setattr(obj, k, v)
+    return obj
+
+
+def _namedtuple(values):
+    fields = tuple(values)
+    pad = tuple('pad%d' % i for i in range(max(0, 3 - len(fields))))    # never a (key, value) pair
+    return _tuple_class(fields + pad)(*(list(values.values()) + [0] * len(pad)))
+
+
+# kind: (read with mapping?, read by attribute?, maker)
+ITEM_KINDS = {
+    'dict': (True, False, dict),
+    'item': (False, True, lambda values: _attrs(Item(), values)),
+    'both': (True, True, lambda values: Both(values)),
+    # mapping objects that are no plain dict
+    'getitem': (True, False, Row),
+    'record': (True, False, Record),
+    'missing': (True, False, Derived),
+    'parts': (True, False, SumOfParts),
+    'userdict': (True, False, lambda values: collections.UserDict(values)),
+    'chainmap': (True, False, lambda values: collections.ChainMap({}, dict(values))),
+    'ordered': (True, False, lambda values: collections.OrderedDict(values)),
+    'proxy': (True, False, lambda values: types.MappingProxyType(dict(values))),
+    # instances that keep their attributes elsewhere than in a plain __dict__
+    'slots': (False, True, lambda values: _attrs(_slotted(tuple(values))(), values)),
+    'property': (False, True, Props),
+    'getattr': (False, True, Hidden),
+    'namedtuple': (False, True, _namedtuple),
+    'namespace': (False, True, lambda values: types.SimpleNamespace(**values)),
+    'falsy': (False, True, lambda values: _attrs(EmptyFolder(), values)),
+}
+OLD_KINDS = ('dict', 'item', 'both')
+MAPPING_KINDS = tuple(k for k, v in ITEM_KINDS.items() if v[0] and k not in OLD_KINDS)
+ATTR_KINDS = tuple(k for k, v in ITEM_KINDS.items() if v[1] and k not in OLD_KINDS)
+# elements a set can hold without merging two of them (identity hash)
+SET_OK = ('item', 'both', 'getitem', 'record', 'missing', 'parts', 'slots', 'property', 'getattr', 'falsy')
+# elements whose value can be changed in place by the application
+MUTABLE_KINDS = tuple(k for k in ITEM_KINDS if k not in ('proxy', 'namedtuple'))
+# mapping objects without the dict method get(): the sort options (which ask for it) are not combined with them
+NO_SORT = ('getitem',)
+
+
+def new_item(kind, values):
+    return ITEM_KINDS[kind][2](dict(values))
 
 
 def set_value(kind, item, name, value):
-    if kind == 'item':
+    if kind in ('item', 'slots', 'namespace', 'falsy'):
         setattr(item, name, value)
-    else:
+    elif kind in ('getitem', 'record'):
+        item._cols[name] = value
+    elif kind == 'missing':
+        dict.__setitem__(item, '=' + name, value)
+    elif kind == 'parts':
+        item.update(SumOfParts({name: value}))
+    elif kind == 'chainmap':
+        item.maps[1][name] = value
+    elif kind in ('property', 'getattr'):
+        item.__dict__['_v'][name] = value
+    elif kind in MUTABLE_KINDS:
         item[name] = value
+    else:
+        raise ValueError('workload bug: %s elements cannot be changed in place' % kind)
 
 
 def make_items(variables, kind, extra=None):
-    """extra: {key: values} — further keys / attributes of the elements (sort keys no statistic is asked for)."""
+    """extra: {key: values} — further keys / attributes of the elements (sort keys no statistic is asked for).
+
+    kind 'plain': the elements ARE the values of the one variable (asked for as statistic-item)."""
+    if kind == 'plain':
+        return list(variables[0][1])
     length = len(variables[0][1])
     cols = list(variables) + sorted((extra or {}).items())
     return [new_item(kind, {nm: vals[i] for nm, vals in cols}) for i in range(length)]
@@ -711,6 +1032,14 @@ def make_items(variables, kind, extra=None):
 def make_container(kind, items):
     if kind == 'list':
         return items
+    if kind == 'userlist':
+        return collections.UserList(items)
+    if kind == 'array':                     # plain numbers of one type only
+        return array.array('q' if type(items[0]) is int else 'd', items)
+    if kind == 'dictkeys':                  # plain (hashable) values only; equal values are one key
+        return dict.fromkeys(items).keys()
+    if kind == 'dictobj':                   # iterating a dict yields its keys
+        return dict.fromkeys(items)
     if kind == 'tuple':
         return tuple(items)
     if kind == 'deque':
@@ -764,6 +1093,7 @@ class Env:
         self.calls = []
         self.samples = {}
         self._other = None
+        self.last = (None, None)
 
     def install(self):
         """Counting wrapper on the statistics entries of the real dispatch table (diagnosis only:
@@ -791,11 +1121,14 @@ class Env:
         src, slots = source(channel, mapping, rot, names, opts, loops)
         k = src                 # one compiled template per distinct source text
         t = None if fresh else self.cache.get(k)
+        if t is None and not fresh and self.last[0] == k:
+            t = self.last[1]            # the cache is full: at least the template just used is kept
         if t is None:
             t = (self.HTML(src), slots)
             if len(self.cache) < 4000:
                 self.cache[k] = t
             self.ctx.count('templates compiled')
+        self.last = (k, t)
         return t
 
     def compile(self, src):
@@ -941,24 +1274,28 @@ def evaluate(ctx, env, variables, mapping, channel, rot, container='list', origi
 
     opts None: the plain loop of the first two parts (statistics on the last element); otherwise
     a dict with the keys of DEFAULT_OPTS (a "shape")."""
+    shape = opts is not None
+    o = full_opts(opts)
+    kind = o['items'] or ('dict' if mapping else 'item')
+    case_variables = [[nm, enc(vals)] for nm, vals in variables]
+    seq = make_container(container, make_items(variables, kind, o['extra']))
+    if kind == 'plain' and container in MERGING:
+        # a set / the keys of a dict hold one of several equal values: the sequence is what the container holds
+        variables = [(variables[0][0], list(seq))]
     names = tuple(nm for nm, _ in variables)
     models = {nm: model(vals) for nm, vals in variables}
     encd = [[nm, enc(vals)] for nm, vals in variables]
-    shape = opts is not None
-    o = full_opts(opts)
     if shape:
         desc = (repr(encd), mapping, channel, rot, container, repr(sorted(o.items())))
     else:
         desc = (repr(encd), mapping, channel, rot)
-    case = {'variables': encd, 'mapping': mapping, 'channel': channel, 'rot': rot,
+    case = {'variables': case_variables, 'mapping': mapping, 'channel': channel, 'rot': rot,
             'container': container, 'origin': origin}
     if shape:
         case['opts'] = o
     ctx.case(desc, any(m['n'] >= 2 for m in models.values()))
     tmpl, slots = env.template(channel, mapping, rot, names, opts)
     length = len(variables[0][1])
-    kind = o['items'] or ('dict' if mapping else 'item')
-    seq = make_container(container, make_items(variables, kind, o['extra']))
     uses_mv = any(v is MISSING for _, vals in variables for v in vals)
     kw = render_kw(o)
     try:
@@ -984,8 +1321,29 @@ def evaluate(ctx, env, variables, mapping, channel, rot, container='list', origi
                       % (len(blocks), o['where'], length, o['batch']), case, key='blocks_' + digest(desc))
         return
     if shape:
-        lazy = container in LAZY
+        lazy = container in LAZY + MORE_LAZY
         ctx.count('shape:renders compared')
+        if kind == 'plain':
+            pv = variables[0][1]
+            ctx.count('plain:renders compared')
+            ctx.count('plain:emissions judged', len(blocks))
+            ctx.table('plain container', container)
+            ctx.table('plain data class', models[names[0]]['cls'])
+            if any(is_missing(v) for v in pv):
+                ctx.count('plain:sequences holding missing values')
+                ctx.table('plain container of a sequence holding missing values', container)
+                for i, v in enumerate(pv):
+                    if is_missing(v):
+                        ctx.table('plain position of a missing value',
+                                  'only' if len(pv) == 1 else 'first' if i == 0 else 'last' if i == len(pv) - 1
+                                  else 'inner')
+            if any(not is_missing(v) and not v for v in pv):
+                ctx.count('plain:sequences holding 0 / 0.0 / empty text')
+                ctx.table('plain container of a sequence holding 0 / 0.0 / empty text', container)
+        elif kind not in OLD_KINDS:
+            ctx.count('elements:renders compared')
+            ctx.table('element kind', kind)
+            ctx.table('element kind x container', '%s | %s' % (kind, 'wrapped' if lazy else 'subscriptable'))
         ctx.table('shape container', container)
         ctx.table('shape where', o['where'])
         ctx.table('shape order', order_label(o))
@@ -1218,7 +1576,8 @@ class History:
 
 
 def hist_modes(itemkind):
-    return [(c, m) for c, m in MODES if itemkind == 'both' or m == (itemkind == 'dict')]
+    by_key, by_attr = ITEM_KINDS[itemkind][:2]
+    return [(c, m) for c, m in MODES if (by_key if m else by_attr)]
 
 
 def exhaustive_histories(tier):
@@ -1236,7 +1595,7 @@ def count_exhaustive_histories(tier):
     return sum(1 for _ in exhaustive_histories(tier))
 
 
-def gen_history(rng):
+def gen_history(rng, kinds=('dict', 'item', 'both'), containers=HIST_CONTAINERS):
     nvars = 1 if rng.random() < 0.7 else 2
     names = rng.sample(NAMES, nvars)
     n = rng.randint(1, 8)
@@ -1249,9 +1608,11 @@ def gen_history(rng):
         stat_vars.append((nm, 'str' if kind in ('str', 'numstr') else 'num'))
     if "{'mv': 1}" in repr((values, pools)):
         stat_vars = []          # no ordering is documented for Missing.Value: such histories are not sorted
-    itemkind = rng.choice(['dict', 'item', 'both'])
-    container = rng.choice(HIST_CONTAINERS)
+    itemkind = rng.choice(list(kinds))
+    container = rng.choice(containers)
     modes = hist_modes(itemkind)
+    if itemkind in NO_SORT:
+        stat_vars = []
 
     def row():
         return {nm: rng.choice(pools[nm]) for nm in names}
@@ -1425,6 +1786,87 @@ def shape_case(ctx, env, rng, variables):
     evaluate(ctx, env, variables, mapping, channel, rng.randrange(10), container, 'shape', opts)
 
 
+# ---- element kinds: the same loops over mapping objects that are no plain dict / instances that keep their
+# attributes elsewhere than in a plain __dict__
+def element_cases(ctx, env, rng, variables, kinds=None, origin='elements'):
+    """One drawn shape per mapping flag, rendered over every kind given (default: one drawn kind)."""
+    if kinds is None:
+        kinds = [rng.choice(MAPPING_KINDS + ATTR_KINDS)]
+    shapes = {}
+    for kind in kinds:
+        mapping = ITEM_KINDS[kind][0]
+        if mapping not in shapes:
+            shapes[mapping] = (rng.choice(('var', 'expr')), rng.randrange(10)) + gen_shape(rng, mapping, variables)
+        channel, rot, container, opts = shapes[mapping]
+        opts = dict(opts, items=kind)
+        if rng.random() < 0.25:
+            container = 'userlist'
+        if container in MERGING and kind not in SET_OK:
+            container = 'iterclass'
+        if kind in NO_SORT:
+            opts.pop('sort', None)
+        evaluate(ctx, env, variables, mapping, channel, rot, container, origin, opts)
+
+
+# ---- plain values: the elements of the sequence are the values themselves, summarised as statistic-item
+DOM_FALSY_NUM = (0, 0.0, 2, None)
+DOM_FALSY_STR = ('', 'a', 'b', None)
+
+
+def plain_domains():
+    for dom, top in ((DOM_NUM, 4), (DOM_STR, 4), (DOM_STR2, 3), (DOM_FALSY_NUM, 3), (DOM_FALSY_STR, 3)):
+        for L in range(1, top + 1):
+            for t in itertools.product(dom, repeat=L):
+                yield list(t)
+
+
+def count_plain_domains():
+    return sum(1 for _ in plain_domains())
+
+
+def gen_bigints(rng, n):
+    """Whole numbers beyond 2**53 (sums and extremes stay exact; the derived statistics are floats)."""
+    vals = [rng.randint(-10 ** 18, 10 ** 18) for _ in range(n)]
+    return [None if rng.random() < 0.2 else v for v in vals]
+
+
+def gen_plain(rng, vals):
+    """Container and options for a sequence of plain values.  No option names a key of the elements (there
+    is none): sort options are left out; batch / reversal / naming options in any combination."""
+    n = len(vals)
+    r = rng.random()
+    if r < 0.6:
+        container = rng.choice(LAZY + MORE_LAZY)
+    else:
+        container = rng.choice(DIRECT + MORE_DIRECT)
+    present = {type(v) for v in vals}
+    if container == 'array' and not (present in ({int}, {float}) and all(abs(v) < 2 ** 62 for v in vals)):
+        container = 'userlist'
+    o = {'where': rng.choice(WHERES), 'items': 'plain',
+         'batch': gen_batch(rng, n) if rng.random() < 0.5 else None,
+         'batch_names': rng.random() < 0.3,
+         'form': rng.choice(FORMS) if rng.random() < 0.3 else 'name'}
+    if rng.random() < 0.4:
+        o['reverse'], o['reverse_expr'] = rng.choice(REVERSALS[1:])
+    if rng.random() < 0.25:
+        o['no_push_item'] = True
+    if rng.random() < 0.25:
+        o['prefix'] = rng.choice(PREFIXES)
+    if rng.random() < 0.15:
+        o['skip_unauthorized'] = True
+    if rng.random() < 0.5:
+        o['shuffle'] = rng.randrange(1000)
+    if rng.random() < 0.15:
+        o['else'] = True
+    return container, o
+
+
+def plain_case(ctx, env, rng, vals, origin='plain'):
+    container, opts = gen_plain(rng, vals)
+    evaluate(ctx, env, [('item', vals)], False, rng.choice(('var', 'expr')), rng.randrange(10), container,
+             origin, opts)
+
+
 # ---- the option grid: every subset of {mapping, no_push_item, prefix, skip_unauthorized, sort, reverse,
 # batch} with every sort key relation / direction spelling and every way of asking for the reversal
 GRID_SORTS = ((None, None),
@@ -1546,6 +1988,51 @@ def gen_nested(rng):
             'rot': rng.randrange(10), 'pre': rng.random() < 0.5, 'same': same}
 
 
+def gen_cond(rng, names):
+    if rng.random() < 0.75:
+        return ['name', rng.choice(list(names) * 2 + list(COND_NAMES))]
+    return ['expr', rng.choice(COND_EXPRS)]
+
+
+def gen_snippet(rng, names, depth=0):
+    what = rng.choice(SNIPPETS)
+    if what == 'if':
+        conds = [gen_cond(rng, names) for _ in range(rng.choice((1, 2, 2, 3)))]
+        sub = [gen_snippet(rng, names, 1)] if depth == 0 and rng.random() < 0.25 else []
+        return ['if', conds, rng.random() < 0.5, sub]
+    if what == 'unless':
+        return ['unless', gen_cond(rng, names)]
+    return [what]
+
+
+def gen_furnished(rng):
+    """A nested pair whose loops carry other tags: conditionals (name / expression conditions, elif chains,
+    else), unless, let, with, try, small loops - for every element of the inner loop (always), of the outer
+    loop and between the inner loop and the last outer emission (now and then); the inner loop runs for
+    every outer element in half of the pairs; the emissions sit inside another tag in a third of them."""
+    nd = gen_nested(rng)
+    names = nd['names']
+    for side in ('outer', 'inner'):
+        sd = nd[side]
+        if rng.random() < 0.35 and not nd['same']:
+            # element kinds beyond dict / attribute object
+            kind = rng.choice(MAPPING_KINDS if sd['mapping'] else ATTR_KINDS)
+            sd['opts']['items'] = kind
+            if kind in NO_SORT:
+                sd['opts'].pop('sort', None)
+    f = {'inner': [gen_snippet(rng, names) for _ in range(rng.choice((1, 1, 2, 3)))]}
+    if rng.random() < 0.4:
+        f['outer'] = [gen_snippet(rng, names) for _ in range(rng.choice((1, 2)))]
+    if rng.random() < 0.3:
+        f['mid'] = [gen_snippet(rng, names)]
+    nd['furniture'] = f
+    nd['inner_every'] = rng.random() < 0.5
+    if nd['inner_every'] and nd['inner']['container'] in ('generator', 'iterator', 'map'):
+        nd['inner']['container'] = 'iterclass'     # the inner sequence is walked once per outer element
+    nd['wrap'] = rng.choice(WRAPS) if rng.random() < 0.33 else None
+    return nd
+
+
 def nested_case(ctx, env, nd, origin='nested'):
     names = tuple(nd['names'])
     channel, rot = nd['channel'], nd['rot']
@@ -1559,7 +2046,9 @@ def nested_case(ctx, env, nd, origin='nested'):
     case = {'nested': nd, 'origin': origin}
     ctx.case(desc, any(m['n'] >= 2 for m in list(models_a.values()) + list(models_b.values())))
     pre = nd.get('pre', True)
-    src, slots = nested_source(channel, rot, names, a['mapping'], o_a, b['mapping'], o_b, pre)
+    furniture, inner_every, wrap = nd.get('furniture'), nd.get('inner_every', False), nd.get('wrap')
+    src, slots = nested_source(channel, rot, names, a['mapping'], o_a, b['mapping'], o_b, pre, furniture,
+                               inner_every, wrap)
     label = ', nested loops %s over %s' % (tag_head(a['mapping'], names, o_a),
                                            tag_head(b['mapping'], names, o_b, 'seq2'))
     items_a = make_items(vars_a, o_a['items'], o_a['extra'])
@@ -1570,6 +2059,9 @@ def nested_case(ctx, env, nd, origin='nested'):
     kw = render_kw(o_a)
     kw.update(render_kw(o_b))
     kw['seq2'] = seq_b
+    ticks = []
+    if furniture:
+        kw['tick'] = ticks.append
     encd = [a['variables'], b['variables']]
     try:
         groups = env.render(env.compile(src), slots, channel, seq_a, uses_mv, kw)
@@ -1583,11 +2075,38 @@ def nested_case(ctx, env, nd, origin='nested'):
         return
     dispatch_tables(ctx, env)
     blocks = groups[0]
-    if len(blocks) != 2 + pre:
-        ctx.violation('the statistics were emitted %d times, expected %sinner / outer%s'
-                      % (len(blocks), 'outer / ' if pre else '', label), case, key='blocks_' + digest(desc))
+    shown = len(vars_a[0][1]) if not o_a['batch'] else None     # outer elements displayed (batch: some of them)
+    if inner_every:
+        good = len(blocks) == shown + 1 + pre if shown else len(blocks) >= 2 + pre
+    else:
+        good = len(blocks) == 2 + pre
+    if not good:
+        ctx.violation('the statistics were emitted %d times, expected %s%sinner / outer%s'
+                      % (len(blocks), 'inner for every outer element but the last / ' if inner_every else '',
+                         'outer / ' if pre else '', label), case, key='blocks_' + digest(desc))
         return
     ctx.count('nested:renders compared')
+    if furniture:
+        ctx.count('furniture:renders compared')
+        ctx.count('furniture:tags rendered around the statistics (ticks)', len(ticks))
+        for where in ('inner', 'outer', 'mid'):
+            for sn in furniture.get(where) or ():
+                ctx.table('furniture tag', '%s | %s' % (where, sn[0]))
+                if sn[0] == 'if':
+                    ctx.table('furniture conditional', '%d conditions (%s)%s%s' % (
+                        len(sn[1]), '+'.join(sorted({c[0] for c in sn[1]})), ', else' if sn[2] else '',
+                        ', tags inside' if sn[3] else ''))
+        for t in set(ticks):
+            ctx.table('furniture branch taken', t, ticks.count(t))
+        if inner_every:
+            ctx.count('furniture:inner loop run for every outer element')
+            ctx.count('furniture:inner emissions before the last outer element', len(blocks) - 2 - pre)
+        if wrap:
+            ctx.table('furniture emission inside', wrap)
+        for sd, oo in ((a, o_a), (b, o_b)):
+            if oo['items'] not in OLD_KINDS:
+                ctx.count('furniture:loops over further element kinds')
+                ctx.table('element kind', oo['items'])
     ctx.count('nested:emissions judged', len(blocks))
     ctx.count('nested:outer statistics first asked %s the inner loop' % ('before' if pre else 'after'))
     if nd.get('same'):
@@ -1601,8 +2120,12 @@ def nested_case(ctx, env, nd, origin='nested'):
         ctx.count('nested:the two loops carry different option subsets')
     clean = True
     if pre:
-        clean = judge_blocks(ctx, case, desc, [blocks[0]], vars_a, models_a, channel, a['mapping'],
+        clean = judge_blocks(ctx, case, desc, [blocks[-3]], vars_a, models_a, channel, a['mapping'],
                              label + ', outer loop before the inner one')
+    early = blocks[:len(blocks) - 2 - pre]
+    if early:
+        clean = judge_blocks(ctx, case, desc, early, vars_b, models_b, channel, b['mapping'],
+                             label + ', inner loop run for an earlier outer element') and clean
     clean = judge_blocks(ctx, case, desc, [blocks[-2]], vars_b, models_b, channel, b['mapping'],
                          label + ', inner loop') and clean
     clean = judge_blocks(ctx, case, desc, [blocks[-1]], vars_a, models_a, channel, a['mapping'],
@@ -1676,18 +2199,9 @@ def exhaustive(tier):
                 yield list(t)
 
 
-def run(ctx, spec):
-    from DocumentTemplate import DT_InSV
-    from vlib.reach import Reach
-    reach = Reach()
-    sv = DT_InSV.sequence_variables
-    for label in ('statistics', '__getitem__'):     # diagnosis: absent after a refactoring is no error
-        f = getattr(sv, label, None)
-        if f is not None:
-            reach.watch('sequence_variables.' + label, f)
-    reach.start()
-    env = Env(ctx)
-    env.install()
+def first_parts(ctx, env, rng):
+    if os.environ.get('VERIF_C16_ONLY') == 'further':       # development aid (the run is inconclusive then)
+        return
     for i, vals in enumerate(exhaustive(ctx.tier)):
         if i % ctx.nshards != ctx.shard:
             continue
@@ -1695,7 +2209,6 @@ def run(ctx, spec):
         if i % 7 == 3 and any(v is None for v in vals):
             vals = with_mv(vals)
         all_modes(ctx, env, [(NAMES[(i // ctx.nshards) % len(NAMES)], vals)], i, 'exhaustive')
-    rng = ctx.rng
     per = SEEDED[ctx.tier] // ctx.nshards
     for i in range(per):
         kind, vals = gen_list(rng)
@@ -1755,6 +2268,69 @@ def run(ctx, spec):
     for i in range(HISTORIES[ctx.tier] // ctx.nshards):
         ctx.count('history:seeded histories')
         History(ctx, env, gen_history(rng)).run('seeded')
+
+
+
+def further_parts(ctx, env, rng):
+    # ---- element kinds: every small list over every further kind of mapping object / instance; seeded lists
+    for i, vals in enumerate(exhaustive('quick')):
+        if len(vals) > 3 or i % ctx.nshards != ctx.shard:
+            continue
+        ctx.count('elements:lists from the exhaustive domains')
+        if i % 5 == 2 and any(v is None for v in vals):
+            vals = with_mv(vals)
+        element_cases(ctx, env, rng, [(NAMES[i % len(NAMES)], vals)], MAPPING_KINDS + ATTR_KINDS)
+    for i in range(ELEMENTS[ctx.tier] // ctx.nshards):
+        ctx.count('elements:lists seeded')
+        variables = gen_variables(rng, maxvars=3, p_more=0.4)
+        if rng.random() < 0.1:
+            variables[0] = ('item', variables[0][1])    # a data variable that happens to be called item
+        element_cases(ctx, env, rng, variables)
+
+    # ---- plain values: the sequence holds the values themselves (statistic-item)
+    for i, vals in enumerate(plain_domains()):
+        if i % ctx.nshards != ctx.shard:
+            continue
+        ctx.count('plain:lists from the exhaustive domains')
+        if i % 7 == 3 and any(v is None for v in vals):
+            vals = with_mv(vals)
+        plain_case(ctx, env, rng, vals)
+    for i in range(PLAIN[ctx.tier] // ctx.nshards):
+        ctx.count('plain:lists seeded')
+        if rng.random() < 0.08:
+            kind, vals = 'bigint', gen_bigints(rng, rng.randint(1, 10))
+        else:
+            kind, vals = gen_list(rng)
+        ctx.table('plain seeded kind', kind)
+        plain_case(ctx, env, rng, vals)
+
+    # ---- nested loops carrying other tags (conditionals, let, with, try, small loops)
+    for i in range(FURNISHED[ctx.tier] // ctx.nshards):
+        ctx.count('furniture:pairs generated')
+        nested_case(ctx, env, gen_furnished(rng), 'furnished')
+
+    # ---- histories over the further element kinds
+    for i in range(HISTORIES2[ctx.tier] // ctx.nshards):
+        ctx.count('history:seeded histories over further element kinds')
+        kinds = [k for k in MAPPING_KINDS + ATTR_KINDS if k in MUTABLE_KINDS]
+        History(ctx, env, gen_history(rng, kinds)).run('seeded-kinds')
+
+
+def run(ctx, spec):
+    from DocumentTemplate import DT_InSV
+    from vlib.reach import Reach
+    reach = Reach()
+    sv = DT_InSV.sequence_variables
+    for label in ('statistics', '__getitem__'):     # diagnosis: absent after a refactoring is no error
+        f = getattr(sv, label, None)
+        if f is not None:
+            reach.watch('sequence_variables.' + label, f)
+    reach.start()
+    env = Env(ctx)
+    env.install()
+    rng = ctx.rng
+    first_parts(ctx, env, rng)
+    further_parts(ctx, env, rng)
     reach.stop()
     reach.report(ctx)
 
@@ -1811,6 +2387,52 @@ def finish(agg):
               'nested:both loops over the same elements'):
         if not c.get(k):
             inc.append('never evaluated: ' + k)
+    for k in ('elements:renders compared', 'plain:renders compared', 'plain:emissions judged',
+              'plain:sequences holding missing values', 'plain:sequences holding 0 / 0.0 / empty text',
+              'furniture:renders compared', 'furniture:tags rendered around the statistics (ticks)',
+              'furniture:inner loop run for every outer element',
+              'furniture:inner emissions before the last outer element',
+              'furniture:loops over further element kinds'):
+        if not c.get(k):
+            inc.append('never evaluated: ' + k)
+    nplain = count_plain_domains()
+    if c.get('plain:lists from the exhaustive domains', 0) != nplain:
+        inc.append('plain values: exhaustive part incomplete: %s of %d lists'
+                   % (c.get('plain:lists from the exhaustive domains'), nplain))
+    for kind in MAPPING_KINDS + ATTR_KINDS:
+        if not t.get('shape items', {}).get(kind):
+            inc.append('element kind never compared in a single loop: ' + kind)
+        for how in ('wrapped', 'subscriptable'):
+            if not t.get('element kind x container', {}).get('%s | %s' % (kind, how)):
+                inc.append('element kind never compared in a %s container: %s' % (how, kind))
+        if kind in MUTABLE_KINDS and not t.get('history items', {}).get(kind):
+            inc.append('element kind never compared in a history: ' + kind)
+    for cont in DIRECT + MORE_DIRECT + LAZY + MORE_LAZY:
+        if not t.get('plain container', {}).get(cont):
+            inc.append('plain values never compared in container: ' + cont)
+        if cont != 'array' and not t.get('plain container of a sequence holding missing values', {}).get(cont):
+            inc.append('plain values with missing ones never compared in container: ' + cont)
+        if not t.get('plain container of a sequence holding 0 / 0.0 / empty text', {}).get(cont):
+            inc.append('plain values with 0 / 0.0 / empty text never compared in container: ' + cont)
+    for pos in ('only', 'first', 'inner', 'last'):
+        if not t.get('plain position of a missing value', {}).get(pos):
+            inc.append('plain values: missing value never at position: ' + pos)
+    for cls in ('int', 'float', 'int+float', 'str', 'all-missing'):
+        if not t.get('plain data class', {}).get(cls):
+            inc.append('plain values: data class never compared: ' + cls)
+    for where in ('inner', 'outer', 'mid'):
+        for sn in sorted(set(SNIPPETS)):
+            if not t.get('furniture tag', {}).get('%s | %s' % (where, sn)):
+                inc.append('furniture tag never rendered: %s | %s' % (where, sn))
+    for w in WRAPS:
+        if not t.get('furniture emission inside', {}).get(w):
+            inc.append('statistics never emitted from inside: ' + w)
+    for b in ('branch 1', 'branch 2', 'else branch', 'unless', 'except', 'finally', 'small loop', 'let', 'with'):
+        if not t.get('furniture branch taken', {}).get(b):
+            inc.append('furniture branch never taken: ' + b)
+    if not any(k.startswith(('2 conditions (name)', '3 conditions (name)'))
+               for k in t.get('furniture conditional', {})):
+        inc.append('no conditional with several name conditions was rendered')
     if not t.get('seeded kind', {}).get('const-float'):
         inc.append('no constant float list generated')
     if not t.get('variables per render', {}).get('2'):
